@@ -61,22 +61,24 @@ macro_rules! println {
 class OverlayError(Exception):
     pass
 
-# (file, original line regex, replacement under cfg(kani), tag)
+# (file, module path, names redirected to the model under cfg(kani), model path, tag). The `use` item may be a single
+# name or a brace list (also spread over several lines); names not listed keep coming from the real module, so a changed
+# tree that imports more (`use std::collections::{HashMap, HashSet};`) still gets its overlay.
 REWRITES = [
-    ("src/blockchain/parser/index.rs", r"use std::collections::HashMap;", "use crate::verif_models::HashMap;", "hashmap"),
-    ("src/blockchain/parser/index.rs", r"use rusty_leveldb::\{LdbIterator, Options, DB\};", "use crate::verif_models::leveldb::{LdbIterator, Options, DB};", "leveldb"),
-    ("src/blockchain/parser/chain.rs", r"use std::collections::HashMap;", "use crate::verif_models::HashMap;", "hashmap"),
-    ("src/blockchain/parser/blkfile.rs", r"use std::collections::HashMap;", "use crate::verif_models::HashMap;", "hashmap"),
-    ("src/blockchain/parser/blkfile.rs", r"use std::fs::\{self, DirEntry, File\};", "use crate::verif_models::fs::{self, DirEntry, File};", "fs"),
-    ("src/blockchain/parser/mod.rs", r"use std::process;", "use crate::verif_models::process;", "process"),
-    ("src/blockchain/parser/mod.rs", r"use std::time::\{Duration, Instant\};", "use crate::verif_models::time::{Duration, Instant};", "time"),
-    ("src/callbacks/common.rs", r"use std::collections::HashMap;", "use crate::verif_models::HashMap;", "hashmap"),
-    ("src/callbacks/unspentcsvdump.rs", r"use std::collections::HashMap;", "use crate::verif_models::HashMap;", "hashmap"),
-    ("src/callbacks/unspentcsvdump.rs", r"use std::fs::\{self, File\};", "use crate::verif_models::fs::{self, File};", "fs"),
-    ("src/callbacks/balances.rs", r"use std::collections::HashMap;", "use crate::verif_models::HashMap;", "hashmap"),
-    ("src/callbacks/balances.rs", r"use std::fs::\{self, File\};", "use crate::verif_models::fs::{self, File};", "fs"),
-    ("src/callbacks/csvdump.rs", r"use std::fs::\{self, File\};", "use crate::verif_models::fs::{self, File};", "fs"),
-    ("src/callbacks/simplestats.rs", r"use std::collections::HashMap;", "use crate::verif_models::HashMap;", "hashmap"),
+    ("src/blockchain/parser/index.rs", "std::collections", ["HashMap"], "crate::verif_models", "hashmap"),
+    ("src/blockchain/parser/index.rs", "rusty_leveldb", ["LdbIterator", "Options", "DB"], "crate::verif_models::leveldb", "leveldb"),
+    ("src/blockchain/parser/chain.rs", "std::collections", ["HashMap"], "crate::verif_models", "hashmap"),
+    ("src/blockchain/parser/blkfile.rs", "std::collections", ["HashMap"], "crate::verif_models", "hashmap"),
+    ("src/blockchain/parser/blkfile.rs", "std::fs", ["self", "DirEntry", "File"], "crate::verif_models::fs", "fs"),
+    ("src/blockchain/parser/mod.rs", "std", ["process"], "crate::verif_models", "process"),
+    ("src/blockchain/parser/mod.rs", "std::time", ["Duration", "Instant"], "crate::verif_models::time", "time"),
+    ("src/callbacks/common.rs", "std::collections", ["HashMap"], "crate::verif_models", "hashmap"),
+    ("src/callbacks/unspentcsvdump.rs", "std::collections", ["HashMap"], "crate::verif_models", "hashmap"),
+    ("src/callbacks/unspentcsvdump.rs", "std::fs", ["self", "File"], "crate::verif_models::fs", "fs"),
+    ("src/callbacks/balances.rs", "std::collections", ["HashMap"], "crate::verif_models", "hashmap"),
+    ("src/callbacks/balances.rs", "std::fs", ["self", "File"], "crate::verif_models::fs", "fs"),
+    ("src/callbacks/csvdump.rs", "std::fs", ["self", "File"], "crate::verif_models::fs", "fs"),
+    ("src/callbacks/simplestats.rs", "std::collections", ["HashMap"], "crate::verif_models", "hashmap"),
 ]
 
 # function-entry hooks (cfg(kani), scratch copy only): (file, regex of the fn signature up to `{`, inserted text, tag)
@@ -203,23 +205,35 @@ def build(dest, prop_id=None, files=None):
             needed_tags.update(m.group(1).split())
 
     # library models: rewrite use lines
-    for rel, pat, repl, tag in REWRITES:
+    for rel, path, names, model, tag in REWRITES:
         p = os.path.join(dest, rel)
         if not os.path.exists(p):
             if tag in needed_tags:
                 raise OverlayError(f"anchor file missing: {rel}")
             continue
         s = open(p).read()
-        rx = re.compile(r"^(\s*)(" + pat + r")\s*$", re.M)
-        m = rx.search(s)
-        if not m:
+        rx = re.compile(r"^([ \t]*)use\s+" + re.escape(path) + r"::(\{[^}]*\}|\w+)\s*;[ \t]*$", re.M)
+        hit = None
+        for m in rx.finditer(s):
+            items = [i.strip() for i in m.group(2).strip("{}").split(",") if i.strip()]
+            if any(i in names for i in items):
+                hit = (m, items)
+                break
+        if not hit:
             if tag in needed_tags:
-                raise OverlayError(f"anchor line not found in {rel}: {pat}")
+                raise OverlayError(f"anchor line not found in {rel}: use {path}::{{..{','.join(names)}..}}")
             continue
-        new = f"{m.group(1)}#[cfg(not(kani))] {m.group(2)}\n{m.group(1)}#[cfg(kani)] {repl}"
+        m, items = hit
+        red = [i for i in items if i in names]
+        rest = [i for i in items if i not in names]
+        ind = m.group(1)
+        orig = " ".join(m.group(0).split())
+        new = f"{ind}#[cfg(not(kani))] {orig}\n{ind}#[cfg(kani)] use {model}::{{{', '.join(red)}}};"
+        if rest:
+            new += f"\n{ind}#[cfg(kani)] use {path}::{{{', '.join(rest)}}};"
         s = s[:m.start()] + new + s[m.end():]
         open(p, "w").write(s)
-        info["rewrites"].append(f"{rel}: `{m.group(2)}` -> `{repl}` (cfg(kani))")
+        info["rewrites"].append(f"{rel}: `{orig}` -> `use {model}::{{{', '.join(red)}}}` (cfg(kani))")
 
     # function-entry hooks
     for rel, pat, text, tag in HOOKS:
